@@ -199,7 +199,7 @@ def fixed_cases():
          [[5, 0], [6, 0, 0, 0, 0], [6, 0, 1, 0, 0]] + [[3, 0, 0] + mk_item(2, i) for i in range(24)]
     c5 = [[1, 0, 1, 3, 3], [1, 1, 1, 5, 3]] + [[2, i % 2, 1 + i % 4, (i * 5) % 31] for i in range(150)] + \
          [[4, 0, 1], [5, 0], [14, 1, 0], [5, 1], [4, 1, 1], [5, 1], [6, 1, 1, 0, 0], [6, 1, 0, 0, 0]] + [[3, 1, 0, i] for i in range(31)]
-    tags = [['finding-nfn-threshold'], ['finding-merge-purged-empty'], ['finding-roundtrip-purged-empty'], ['finding-eps-mixed-sizes'],
+    tags = [['finding-nfn-threshold'], ['merge-purged-empty'], ['finding-roundtrip-purged-empty'], ['finding-eps-mixed-sizes'],
             ['fixed-strings'], ['fixed-cluster-merge']]
     return [dict(id='fx%d' % i, ops=c, tags=tags[i]) for i, c in enumerate([c0, c1, c2, c3, c4, c5])]
 
@@ -224,11 +224,13 @@ def bits_to_fraction(b):
 
 def oracle(case, irecs, mrecs):
     fails = []
-    meta = {}          # register -> dict(lgm, minlg, taint:set)
+    meta = {}          # register -> dict(lgm, minlg): own lg_max and the smallest lg_max merged into it
 
     def fail(sig, what, i, r=None, taintable=False):
+        # a register is tainted when its history contains serialize() of a sketch with no active counter but non-zero
+        # total weight / offset (known finding: the 8-byte empty form is written and total and offset are lost)
         if taintable and r in meta and meta[r]['taint']:
-            sig = 'total_or_upper_bound_after_purged_empty_' + '+'.join(sorted(meta[r]['taint']))
+            sig = 'total_or_upper_bound_after_purged_empty_roundtrip'
         fails.append(dict(sig=sig, what=what, op_index=i))
 
     def bracket(i, r, name, est, lb, ub, maxerr, true_w):
@@ -252,26 +254,22 @@ def oracle(case, irecs, mrecs):
         c = op[0]
         if c == 1:
             lgm = max(op[3], 3)
-            meta[op[1]] = dict(lgm=lgm, minlg=lgm, taint=set())
+            meta[op[1]] = dict(lgm=lgm, minlg=lgm, taint=False)
         elif c in (4, 14):
             a, b = op[1], op[2]
-            if a in meta and b in meta and F:
-                onact, ototal, ooff = F
-                meta[a]['taint'] |= meta[b]['taint']
-                if onact == 0 and (ototal != 0 or ooff != 0):
-                    meta[a]['taint'].add('merge')
+            if a in meta and b in meta:
                 meta[a]['minlg'] = min(meta[a]['minlg'], meta[b]['minlg'])
+                meta[a]['taint'] = meta[a]['taint'] or meta[b]['taint']
         elif c in (7, 17):
             a, b = op[1], op[2]
             if a in meta:
-                m = dict(lgm=meta[a]['lgm'], minlg=meta[a]['minlg'], taint=set(meta[a]['taint']))
+                meta[b] = dict(meta[a])
                 if F and F[0] == 0 and (F[1] != 0 or F[2] != 0):
-                    m['taint'].add('roundtrip')
-                meta[b] = m
+                    meta[b]['taint'] = True
         elif c == 8:
             a, b = op[1], op[2]
             if a in meta:
-                meta[b] = dict(lgm=meta[a]['lgm'], minlg=meta[a]['minlg'], taint=set(meta[a]['taint']))
+                meta[b] = dict(meta[a])
         elif c == 3 and S and len(R) == 6:
             est, lb, ub, maxerr, total, nact = R; true_w, true_total = S
             bracket(i, op[1], 'item %s' % (op[3:],), est, lb, ub, maxerr, true_w)
